@@ -50,14 +50,16 @@ def build(case, cn2=None, L0=None, vel=None, scint=None):
     return g, layers, hcipy.MultiLayerAtmosphere(layers, scintillation=bool(case['scint'] if scint is None else scint))
 
 
-def describe_elements(atm, layers):
+def describe_elements(atm, layers, replaced=()):
+    """a layer element is named by its position in `layers`; until the next rebuild the list still holds the layer objects that were
+    replaced through the setter (`replaced`: the former occupants of the positions, every generation) — the model's stale list names those positions too"""
     import hcipy
     out = []
     for e in atm.elements:
         if isinstance(e, hcipy.FresnelPropagator):
             out.append(('P', Fraction(float(e.distance))))
         else:
-            idx = [i for i, l in enumerate(layers) if l is e]
+            idx = [i for i, l in enumerate(layers) if l is e] or [i for gen in replaced for i, l in enumerate(gen) if l is e]
             out.append(('L', idx[0] if idx else -1))
     return out
 
@@ -67,15 +69,20 @@ def run_atmos(case, layers=None, atm=None, g=None, ops=None, light=False):
     import hcipy
     if atm is None:
         g, layers, atm = build(case)
+    layers = list(layers)
     ext = [[] for _ in layers]
-    for i, l in enumerate(layers):
+
+    def instrument(i, l):
         if isinstance(l, hcipy.InfiniteAtmosphericLayer):
             def rec(where=None, _o=l._extrude, _e=ext[i]):
                 _e.append(where)
                 return _o(where)
             l._extrude = rec
+    for i, l in enumerate(layers):
+        instrument(i, l)
     wf = hcipy.Wavefront(hcipy.Field(np.ones(g.size), g), 1.0)
     obs = []
+    replaced = []
     for op in (case['ops'] if ops is None else ops):
         o = {'op': op, 'status': 'ok'}
         for e in ext:
@@ -113,6 +120,23 @@ def run_atmos(case, layers=None, atm=None, g=None, ops=None, light=False):
                 layers[op[1]].height = op[2]
             elif k == 'relayers':
                 atm.layers = list(atm.layers)
+            elif k == 'swap':
+                # new layers with the same seeds (and the settings of the layers they replace) assigned through the setter
+                fresh = []
+                for spec, l in zip(case['layers'], layers):
+                    if spec['kind'] == 'finite':
+                        fresh.append(hcipy.FiniteAtmosphericLayer(g, l.Cn_squared, l.L0, np.array(l.velocity, dtype=float), l.height, seed=spec['seed']))
+                    else:
+                        fresh.append(hcipy.InfiniteAtmosphericLayer(g, l.Cn_squared, l.L0, np.array(l.velocity, dtype=float), l.height,
+                                                                    use_interpolation=bool(spec.get('interp')), seed=spec['seed']))
+                replaced.append(list(layers))        # every generation: the list may survive several assignments without a rebuild
+                for i, l in enumerate(fresh):
+                    layers[i] = l
+                    instrument(i, l)
+                atm.layers = list(fresh)
+            elif k == 'rewrap':
+                # a new atmosphere around the same (possibly evolved) layer objects
+                atm = hcipy.MultiLayerAtmosphere(list(layers), scintillation=bool(atm.scintillation))
             elif k == 'forward':
                 atm.forward(wf) if op[1] else atm.backward(wf)
             elif k == 'calc':
@@ -128,7 +152,7 @@ def run_atmos(case, layers=None, atm=None, g=None, ops=None, light=False):
             o['total'] = float(atm.Cn_squared)
             o['dirty'] = bool(atm._dirty)
             o['scint'] = bool(atm.scintillation)
-            o['elements'] = describe_elements(atm, layers)
+            o['elements'] = describe_elements(atm, layers, replaced)
             o['heights'] = [float(l.height) for l in layers]
             o['layers'] = []
             for i, l in enumerate(layers):
@@ -190,6 +214,13 @@ def judge_atmos(case, obs=None):
     scint = bool(case['scint'])
     pending = False
     any_inf = any(l['kind'] == 'infinite' for l in case['layers'])
+    # per layer object (round 6): its own clock, the evolution times it has been given since its last reset, whether a fresh stand-alone
+    # layer of the same seed is a reference for it (no setter since its last reset, no independent realisation, no refused fan-out)
+    lclock = [0.0] * n
+    lseq = [[] for _ in range(n)]
+    lclean = [True] * n
+    lindep = [False] * n
+    stored = 0.0           # what the atmosphere itself last recorded as its time (own bookkeeping of the oracle; None = unknown)
     for k, o in enumerate(obs):
         op = o['op']
         where = 'op %d %r' % (k, op)
@@ -203,22 +234,44 @@ def judge_atmos(case, obs=None):
         if kind in ('evolve', 'sett'):
             cnt('evolve_until' if kind == 'evolve' else 't setter')
             back = any(op[1] < l['t'] for l, spec in zip(obs[k - 1]['layers'] if k else [{'t': 0.0}] * n, case['layers']) if spec['kind'] == 'infinite')
+            if all(c is not None for c in lclock):
+                # the same from the oracle's own clocks
+                back2 = any(op[1] < c for c, spec in zip(lclock, case['layers']) if spec['kind'] == 'infinite')
+                if back2 != (o['status'] == 'value'):
+                    fail('atm-evolve-refused' if not back2 else 'atm-evolve-backwards',
+                         '%s: %s; the infinite layers are at %r' % (where, 'raised ValueError' if not back2 else 'a backwards time was accepted',
+                                                                     [c for c, spec in zip(lclock, case['layers']) if spec['kind'] == 'infinite']))
+                if stored is not None and op[1] == stored and any(c != stored for c in lclock):
+                    cnt('evolve_until(t) with t = the atmosphere\'s own time while a layer is at another time (%s)' % ('refused' if back2 else 'accepted'))
+                elif stored is not None and op[1] == stored:
+                    cnt('evolve_until(t) with t = the atmosphere\'s own time, layers in step')
             if o['status'] == 'value':
                 cnt('refused fan-out (backwards time at an infinite layer)')
                 if not back:
                     fail('atm-evolve-refused', '%s raised ValueError although no infinite layer is ahead of that time' % where)
                 clock = None
                 clean = False
+                lclock = [None] * n
+                lclean = [False] * n
+                stored = None
             else:
                 if back:
                     fail('atm-evolve-backwards', '%s: a backwards time was accepted by an infinite layer' % where)
                 clock = op[1]
                 seq.append(op[1])
+                lclock = [op[1]] * n
+                for q in lseq:
+                    q.append(op[1])
+                stored = op[1]
         elif kind == 'reset':
             cnt('reset')
             clock = 0.0
             seq = []
             clean = True
+            lclock = [0.0] * n
+            lseq = [[] for _ in range(n)]
+            lclean = [True] * n
+            stored = 0.0
             for i, l in enumerate(o['layers']):
                 if any(c != 0 for c in l['center']):
                     fail('atm-reset-fanout', '%s: layer %d is not back at the origin (center %r)' % (where, i, l['center']))
@@ -227,24 +280,61 @@ def judge_atmos(case, obs=None):
             old = float(np.sum(cn2))
             cn2 = [c / old * op[1] for c in cn2]
             clean = False
+            lclean = [False] * n
             if abs(o['total'] - op[1]) > 1e-12 * abs(op[1]):
                 fail('atm-setter', '%s: atm.Cn_squared reads %r afterwards' % (where, o['total']))
         elif kind == 'setl0':
             cnt('outer_scale setter')
             L0 = [op[1]] * n
             clean = False
+            lclean = [False] * n
         elif kind == 'direct':
             cnt('operation on a layer object')
             clean = False
+            j = op[1]
             if op[2] == 'setcn2':
                 cn2[op[1]] = op[3]
+                lclean[j] = False
             elif op[2] == 'setl0':
                 L0[op[1]] = op[3]
+                lclean[j] = False
             elif op[2] == 'reset':
                 indep = indep or bool(op[3])
                 clock = None
+                if o['status'] != 'ok':
+                    fail('atm-layer-reset', '%s raised %s' % (where, o['status']))
+                lclock[j] = 0.0
+                lseq[j] = []
+                lclean[j] = True
+                lindep[j] = lindep[j] or bool(op[3])
+                cnt('layer.reset() behind the atmosphere')
             elif op[2] == 'evolve':
                 clock = None
+                if lclock[j] is not None:
+                    refuse = case['layers'][j]['kind'] == 'infinite' and op[3] < lclock[j]
+                    if refuse != (o['status'] == 'value'):
+                        fail('atm-layer-evolve', '%s: %s; the layer is at %r' % (where, 'raised ValueError' if not refuse else 'a backwards time was accepted', lclock[j]))
+                    if not refuse:
+                        lclock[j] = op[3]
+                        lseq[j].append(op[3])
+                cnt('layer.evolve_until() behind the atmosphere')
+        elif kind == 'swap':
+            cnt('new same-seed layers assigned through the layers setter')
+            pending = True
+            clock = None
+            clean = False
+            lclock = [0.0] * n
+            lseq = [[] for _ in range(n)]
+            lclean = [True] * n
+            lindep = [False] * n
+            indep = False
+        elif kind == 'rewrap':
+            cnt('new atmosphere around the existing layer objects')
+            pending = False
+            known_heights = list(o['heights'])
+            clock = None
+            clean = False
+            stored = 0.0
         elif kind == 'setscint':
             cnt('scintillation setter (%s)' % ('other value' if bool(op[1]) != scint else 'same value'))
             pending = pending or bool(op[1]) != scint
@@ -269,6 +359,9 @@ def judge_atmos(case, obs=None):
             for i, l in enumerate(o['layers']):
                 if l['t'] != clock:
                     fail('atm-time-fanout', '%s: layer %d reports t = %r, the atmosphere is at %r' % (where, i, l['t'], clock))
+        for i, l in enumerate(o['layers']):
+            if lclock[i] is not None and l['t'] != lclock[i]:
+                fail('atm-layer-time', '%s: layer %d reports t = %r; it was last brought to %r (through the atmosphere or directly)' % (where, i, l['t'], lclock[i]))
         if kind == 'forward' and o['status'] == 'ok':
             cnt('propagations (forward/backward)')
             el = o['elements']
@@ -308,6 +401,30 @@ def judge_atmos(case, obs=None):
                 fail('atm-phase-sum', '%s: atm.phase_for is not the sum of the layers\' phase_for' % where)
             if not close(o['phase'] * lam, np.sum(o['parts1'], axis=0)):
                 fail('atm-wavelength', '%s: phase_for(%r)*%r differs from the sum of the achromatic screens' % (where, lam, lam))
+            if not (clean and not indep and clock is not None):
+                # the layers are not (known to be) in step, or something was changed behind the atmosphere: every layer object whose own
+                # history is known is compared, bit for bit, with a stand-alone layer freshly built from the same seed and the
+                # parameters in force, given the same evolution times
+                for i, spec in enumerate(case['layers']):
+                    if lclock[i] is None or not lclean[i] or lindep[i]:
+                        cnt('layer screens not judged (setter / independent realisation / refused fan-out since its reset)')
+                        continue
+                    cnt('layer screens compared with a fresh stand-alone layer of the same seed')
+                    if lseq[i] and any(c != lclock[i] for c in lclock):
+                        cnt('layer screens compared with a fresh stand-alone layer, layers at different times')
+                    sub = dict(case, layers=[dict(spec, cn2=o['layers'][i]['cn2'], L0=o['layers'][i]['L0'])])
+                    g, fl, fa = build(sub, scint=False)
+                    try:
+                        for t in lseq[i]:
+                            fl[0].evolve_until(t)
+                        ref = np.array(fl[0].phase_for(1), dtype=float)
+                    except Exception as e:  # noqa
+                        fail('atm-layer-replay', '%s: the fresh reference layer %d refused the times %r: %s' % (where, i, lseq[i], e))
+                        continue
+                    if not np.array_equal(ref, o['parts1'][i]):
+                        fail('atm-layer-replay', '%s: layer %d (%s, seed %d) differs from a freshly built layer with the same seed and parameters evolved '
+                             'through %r (max dev %.3g of %.3g)' % (where, i, spec['kind'], spec['seed'], lseq[i], float(np.abs(ref - o['parts1'][i]).max()),
+                                                                     float(np.abs(ref).max())))
             if clean and not indep and clock is not None:
                 cnt('reads compared with a fresh atmosphere')
                 if not seq:
@@ -365,6 +482,12 @@ def atmos_lines(case, obs):
             lines.append('atm seth %d %s' % (op[1], rat(op[2]))); want.append(('atm', k))
         elif kind == 'relayers':
             lines.append('atm setlayers %s' % rat_list(o['heights'])); want.append(('atm', k))
+        elif kind == 'swap':
+            lines.append('mla swap'); want.append(('mla', k))
+            lines.append('atm setlayers %s' % rat_list(o['heights'])); want.append(('atm', k))
+        elif kind == 'rewrap':
+            lines.append('mla rewrap'); want.append(('mla', k))
+            lines.append('atm new %d %s' % (int(o['scint']), rat_list(o['heights']))); want.append(('atm', k))
         elif kind == 'forward':
             lines.append('atm prop'); want.append(('atm', k))
             lines.append('elements %d %s' % (int(o['scint']), rat_list(o['heights']))); want.append(('elements', k))
@@ -454,7 +577,7 @@ def compare_atmos(ctx, case, obs, want, out):
                 if a.setdefault(m, r) != r or b.setdefault(r, m) != m:
                     dis('op %s layer %d: generator %s: model position %s / real state do not correspond one to one' % (k, i, name, m), 'atmos-rng')
             if 'hist' in kv:
-                if o['op'][0] == 'reset' or (o['op'][0] == 'direct' and o['op'][2] == 'reset' and o['op'][1] == i):
+                if o['op'][0] in ('reset', 'swap') or (o['op'][0] == 'direct' and o['op'][2] == 'reset' and o['op'][1] == i):
                     hist[i] = 0
                 for w in l['ext']:
                     hist[i] = hist[i] * 5 + WHERE_CODE[w]
@@ -487,7 +610,7 @@ def compare_atmos(ctx, case, obs, want, out):
             if o['status'] != 'ok':
                 dis('op %s: real raised %s' % (ref, o['status']), 'atmos-elements-status')
                 continue
-            if o['op'][0] == 'calc' or (o['op'][0] == 'forward' and obs[ref - 1]['dirty'] if ref else False):
+            if o['op'][0] in ('calc', 'rewrap') or (o['op'][0] == 'forward' and obs[ref - 1]['dirty'] if ref else False):
                 built[0] = list(o['heights'])
             if kv['dirty'] != str(int(o['dirty'])) or kv['scint'] != str(int(o['scint'])) or \
                     canon_elements(parse_elements(kv['el']), built[0]) != canon_elements(o['elements'], built[0]):
@@ -631,6 +754,110 @@ def gen_atmos_case(rng, big):
     return case
 
 
+STALE_MOTIFS = ('layer-reset', 'swap', 'layer-ahead', 'layer-behind', 'rewrap-zero', 'reset-layer-evolve-zero', 'layer-setter', 'same-time-twice',
+                'rewrap-same-time')
+
+
+def gen_stale_case(rng, big):
+    """repeated / equal target times after out-of-band changes: the atmosphere is asked for EXACTLY the time it last recorded (or 0
+    right after construction / reset()) while one or more layer objects are somewhere else — a layer reset or evolved directly, new
+    same-seed layers assigned through the setter, a new atmosphere built around layers that have already been evolved — or while a
+    parameter was changed in between.  Several motifs per case, reads after each."""
+    case = gen_atmos_case(rng, big)
+    n = len(case['layers'])
+    case['scint'] = False
+    ops = case['ops'] = []
+    case['family'] = 'stale-clock'
+    case['motifs'] = []
+    t = 0.0                          # the time the atmosphere has recorded
+    lt = [0.0] * n                   # where the layer objects are
+    inf = [l['kind'] == 'infinite' for l in case['layers']]
+
+    def read():
+        ops.append(['read', float(rng.choice([1.0, 1.0, 0.5, 2.0]))])
+
+    def evolve(x):
+        ops.append([str(rng.choice(['evolve', 'evolve', 'sett'])), x])
+        return not any(i and x < c for i, c in zip(inf, lt))
+    for _ in range(int(rng.integers(2, 5 if not big else 8))):
+        m = str(rng.choice(STALE_MOTIFS))
+        j = int(rng.integers(n))
+        if t == 0.0 and m not in ('rewrap-zero', 'reset-layer-evolve-zero') and rng.random() < 0.8:
+            t = float(rng.choice([0.25, 0.5, 1.0, 2.0, 3.0]))
+            if evolve(t):
+                lt = [t] * n
+            if rng.random() < 0.5:
+                read()
+        case['motifs'].append(m)
+        if m == 'layer-reset':
+            for jj in set([j] + ([int(rng.integers(n))] if rng.random() < 0.3 else [])):
+                ops.append(['direct', jj, 'reset', False]); lt[jj] = 0.0
+            if rng.random() < 0.3:
+                read()
+        elif m == 'swap':
+            ops.append(['swap']); lt = [0.0] * n
+            if rng.random() < 0.3:
+                read()
+        elif m == 'layer-ahead':
+            x = t + float(rng.choice([0.25, 1.0, 2.0]))
+            ops.append(['direct', j, 'evolve', x]); lt[j] = x
+        elif m == 'layer-behind':
+            x = float(rng.integers(0, int(t * 4) + 1)) / 4.0 if t > 0 else 0.0
+            ops.append(['direct', j, 'evolve', x])
+            if not (inf[j] and x < lt[j]):
+                lt[j] = x
+        elif m == 'rewrap-zero':
+            # evolve some layers directly, wrap them in a new atmosphere, ask for t = 0
+            for jj in range(n):
+                if rng.random() < 0.6 or jj == j:
+                    x = lt[jj] + float(rng.choice([0.5, 1.0, 2.0]))
+                    ops.append(['direct', jj, 'evolve', x]); lt[jj] = x
+            ops.append(['rewrap']); t = 0.0
+        elif m == 'rewrap-same-time':
+            ops.append(['rewrap'])
+            if evolve(0.0):
+                lt = [0.0] * n
+            if rng.random() < 0.5:
+                read()
+            t_new = max(lt) + float(rng.choice([0.0, 0.5, 1.0]))
+            t = 0.0 if t_new < max(lt) else t
+            if evolve(t_new):
+                lt = [t_new] * n; t = t_new
+            read()
+            continue
+        elif m == 'reset-layer-evolve-zero':
+            ops.append(['reset']); t = 0.0; lt = [0.0] * n
+            x = float(rng.choice([0.5, 1.0, 2.0]))
+            ops.append(['direct', j, 'evolve', x]); lt[j] = x
+            if rng.random() < 0.3:
+                read()
+        elif m == 'layer-setter':
+            if rng.random() < 0.5:
+                ops.append(['direct', j, str(rng.choice(['setcn2', 'setl0'])), float(rng.integers(1, 9)) * SCALE if rng.random() < 0.5 else 5.0])
+                if ops[-1][2] == 'setcn2':
+                    ops[-1][3] = float(rng.integers(1, 9)) * SCALE
+                else:
+                    ops[-1][3] = float(rng.choice([5.0, 10.0, 40.0]))
+            else:
+                ops.append(['setcn2', float(2.0 ** int(rng.integers(0, 6))) * SCALE] if rng.random() < 0.5 else ['setl0', float(rng.choice([5.0, 10.0, 20.0, 40.0]))])
+        elif m == 'same-time-twice':
+            pass
+        # ... and now EXACTLY the time the atmosphere has recorded
+        if evolve(t):
+            lt = [t] * n
+        read()
+        if rng.random() < 0.4:
+            if evolve(t):
+                lt = [t] * n
+            read()
+        if rng.random() < 0.35:
+            ops.append(['reset']); t = 0.0; lt = [0.0] * n
+            if rng.random() < 0.5:
+                read()
+    ops.append(['forward', True])
+    return case
+
+
 def _layer(kind, vel, cn2, height, seed, L0=10.0, interp=False):
     return {'kind': kind, 'vel': vel, 'cn2': cn2 * SCALE, 'L0': L0, 'height': height, 'seed': seed, 'interp': interp}
 
@@ -658,6 +885,20 @@ DIRECTED = [
     {'kind': 'atmos', 'nx': 5, 'ny': 4, 'dx': 0.5, 'dy': 0.5, 'scint': True,
      'layers': [_layer('infinite', [0.5, 0.0], 2, 512.0, 51, interp=True)],
      'ops': [['forward', True], ['evolve', 1.5], ['setscint', False], ['read', 1.0], ['reset'], ['evolve', 1.5], ['read', 1.0], ['forward', True]]},
+    # round 6: the atmosphere is asked for the time it has itself recorded while a layer is elsewhere
+    # (1) layer.reset() on a held layer, (2) same-seed layers swapped in, (3) evolved layer wrapped in a new atmosphere and evolve_until(0)
+    {'kind': 'atmos', 'nx': 6, 'ny': 5, 'dx': 0.25, 'dy': 0.25, 'scint': False,
+     'layers': [_layer('finite', [0.25, 0.0], 1, 1024.0, 71), _layer('infinite', [0.0, 0.25], 3, 0.0, 72)],
+     'ops': [['evolve', 2.0], ['read', 1.0], ['direct', 0, 'reset', False], ['read', 1.0], ['evolve', 2.0], ['read', 1.0], ['direct', 1, 'reset', False],
+             ['evolve', 2.0], ['read', 1.0], ['swap'], ['read', 1.0], ['evolve', 2.0], ['read', 0.5], ['forward', True]]},
+    {'kind': 'atmos', 'nx': 5, 'ny': 5, 'dx': 0.5, 'dy': 0.5, 'scint': False,
+     'layers': [_layer('finite', [0.5, 0.0], 1, 0.0, 81), _layer('finite', [0.0, -0.5], 1, 512.0, 82)],
+     'ops': [['direct', 0, 'evolve', 2.0], ['rewrap'], ['evolve', 0.0], ['read', 1.0], ['evolve', 1.0], ['direct', 1, 'evolve', 3.0], ['sett', 1.0], ['read', 1.0],
+             ['reset'], ['direct', 1, 'evolve', 1.0], ['evolve', 0.0], ['read', 1.0]]},
+    {'kind': 'atmos', 'nx': 5, 'ny': 4, 'dx': 0.5, 'dy': 0.5, 'scint': False,
+     'layers': [_layer('infinite', [0.5, 0.0], 1, 0.0, 91, interp=True), _layer('infinite', [-0.5, 0.5], 1, 512.0, 92)],
+     'ops': [['evolve', 1.5], ['direct', 1, 'evolve', 2.5], ['evolve', 1.5], ['read', 1.0], ['swap'], ['evolve', 1.5], ['read', 1.0], ['rewrap'], ['evolve', 0.0],
+             ['evolve', 1.5], ['evolve', 1.5], ['read', 1.0]]},
     # operations on the layer objects
     {'kind': 'atmos', 'nx': 5, 'ny': 6, 'dx': 0.25, 'dy': 0.25, 'scint': False,
      'layers': [_layer('infinite', [0.25, 0.25], 1, 0.0, 61), _layer('infinite', [-0.25, 0.0], 1, 1024.0, 62)],
